@@ -274,3 +274,10 @@ PROPS["C06"] = {
     "level_note": "Trusted: Coq kernel; the bufio model (validated against go1.26.8 on every run); harness. Partial as listed: the split of a PUBLISH body into topic/identifier/message and the session effects are covered by the session model's correspondence, not by these L1 theorems.",
     "technique": "Coq proof by induction over the chunk tape (bufio refinement to the pending-bytes abstraction) + model/implementation correspondence over all cut positions",
 }
+
+PROPS["C15"]["modules"] = ["C15Check", "HistChecks"]
+PROPS["C15"]["runners"] = [{"name": "C15"}, {"name": "C15S", "synctest": True}]
+PROPS["C15"]["rule"] += (" Second runner C15S (session level): a running client with transfers at every stage meets a record that no longer decodes "
+    "(client identifier, reception marker, pending PUBLISH, PUBREL; truncated to 0, 1, 11 bytes or one byte altered) without a restart, plus the 17 restart-damage scenarios; "
+    "c15s_ok: every call that loaded an undecodable value fails (AdoptSession: warns).")
+PROPS["C15"]["trusted_extra"] = SEQ_TB
